@@ -607,6 +607,8 @@ def run(rep, facts, tier):
     from rules.C05 import rule_copy_window
     rule_copy_window(rep, facts['default'], 'R06.5')
     rule_06_6(rep, facts['default'])
+    from rules.C09 import rule_range_bounds
+    rule_range_bounds(rep, facts['default'], 'R06.7')
     if 'security' in facts:
         run_config(rep, facts['security'], 'security', floor=False)
         rule_06_6(rep, facts['security'], pre='security:')
